@@ -57,7 +57,7 @@ def shards(tier, seed):
     for u in U:
         ns = max(1, min(40, size_G(u["n"], u["k"], u["T"], u["labels"]) // 40))
         for s in range(ns):
-            tasks.append({"universe": u, "shard": s, "nshards": ns, "tier": tier})
+            tasks.append({"universe": u, "shard": s, "nshards": ns, "tier": tier, "dup_every": 3})
     return tasks
 
 
